@@ -329,6 +329,9 @@ pub struct Spelling {
     /// standard mode only: redundant `//` and `/./` insertions (bit i before segment i); 0 = none
     pub path_noise: u8,
     pub version: u8,
+    /// spell a '+' of a path segment literally (only the known-finding probes do; everything else escapes it)
+    #[serde(default)]
+    pub plus_literal: bool,
 }
 
 pub fn spelling() -> BoxedStrategy<Spelling> {
@@ -344,7 +347,7 @@ pub fn spelling() -> BoxedStrategy<Spelling> {
         prop_oneof![6 => Just(11u8), 1 => Just(10u8), 1 => Just(2u8), 1 => Just(3u8), 1 => Just(9u8)],
     )
         .prop_map(|(bytes, query_order, amp_padding, drop_eq, header_case, header_pad, header_order, path_noise, version)| {
-            Spelling { bytes, query_order, amp_padding, drop_eq, header_case, header_pad, header_order, path_noise, version }
+            Spelling { bytes, query_order, amp_padding, drop_eq, header_case, header_pad, header_order, path_noise, version, plus_literal: false }
         })
         .boxed()
 }
@@ -415,7 +418,7 @@ pub fn spell(l: &Logical, sp: &Spelling, s3: bool) -> WireRequest {
         }
         path.push('/');
         let rot: Vec<u8> = if ch.is_empty() { vec![] } else { ch.iter().cycle().skip(i).take(ch.len()).cloned().collect() };
-        path.push_str(&spell_path_segment(&seg.0, &rot, false));
+        path.push_str(&spell_path_segment(&seg.0, &rot, sp.plus_literal));
     }
     if l.segments.is_empty() || l.trailing_slash {
         path.push('/');
